@@ -6,6 +6,7 @@
 package verifcontrols
 
 import (
+	"math/big"
 	"math/rand"
 	"os"
 	"runtime"
@@ -161,3 +162,36 @@ func CtlGlobalMapDelete(a string) { delete(registry, a) }
 func CtlGlobalMapPassed(a string) { ctlFill(registryInts, a) }
 
 var registryInts = map[string]int{}
+
+// ---- C01 R12 controls: writes through aliases of package-level memory ----
+
+var ctlBigOne = big.NewInt(1)
+
+func ctlBigMax(a, b *big.Int) *big.Int {
+	if a.Cmp(b) < 0 {
+		return b
+	}
+	return a
+}
+
+// CtlSharedNumberMutated: the result of the max helper may be the shared constant; Add overwrites it (must be reported).
+func CtlSharedNumberMutated(x, y *big.Int) *big.Int {
+	d := ctlBigMax(x, ctlBigOne)
+	return d.Add(y, d)
+}
+
+// CtlFreshNumberMutated: the same computation into a fresh receiver (must stay silent).
+func CtlFreshNumberMutated(x, y *big.Int) *big.Int {
+	d := ctlBigMax(x, ctlBigOne)
+	return new(big.Int).Add(y, d)
+}
+
+var ctlPrefixRoomy = make([]byte, 1, 21)
+
+var ctlPrefixTight = []byte{0x01}
+
+// CtlAppendRoomy: append to a package-level slice with spare capacity writes the shared array (must be reported).
+func CtlAppendRoomy(a []byte) []byte { return append(ctlPrefixRoomy, a...) }
+
+// CtlAppendTight: len == cap, append reallocates (must stay silent).
+func CtlAppendTight(a []byte) []byte { return append(ctlPrefixTight, a...) }
